@@ -350,3 +350,99 @@ def memo_key_adequacy(rep: Report, rule: str, funcs: Iterable[FuncInfo]) -> int:
             missing = sorted(p for p in used if p not in key_names)
             rep.check(not missing, rule, f"{f.short}: cache self.{fld} is keyed by every parameter the result depends on", f.loc(store), construct=f"self.{fld}[{norm(key)}] in {f.short}({', '.join(params)})", detail="" if not missing else f"the entry is keyed by `{norm(key)}` only, but the function also reads {missing}: a later call with another value of {missing} gets the result computed for the first one", function=f.qualname)
     return n
+
+
+# ------------------------------------------------------------------------------------ T19b one-shot local consumed twice
+ONE_SHOT_CALLS = {"map", "filter", "zip", "iter", "reversed", "enumerate", "chain", "from_iterable", "islice", "product"}
+CONSUMERS = {"all", "any", "list", "tuple", "set", "frozenset", "sum", "max", "min", "sorted", "dict", "len", "next", "extend", "update", "join"}
+
+
+def one_shot_local_consumed_twice(rep: Report, rule: str, funcs: Iterable[FuncInfo]) -> int:
+    """A local bound to a one-shot iterator (map / filter / zip / a generator expression …) can be consumed once. Two
+    consumers (a loop, a comprehension, all()/any()/list()/…) on one path, with no re-binding in between, make the
+    second one see an exhausted iterator. Returns the number of one-shot locals examined."""
+    from .cfg import CFG
+    from .dataflow import reaching_defs
+    from .rules import cfg_of, path_text
+
+    n = 0
+    for f in funcs:
+        one_shot_defs = {}
+        for a in walk_no_nested(f.node):
+            if isinstance(a, ast.Assign) and len(a.targets) == 1 and isinstance(a.targets[0], ast.Name):
+                v = a.value
+                if isinstance(v, ast.GeneratorExp) or (isinstance(v, ast.Call) and call_name(v) in ONE_SHOT_CALLS and not (call_name(v) == "product" and False)):
+                    one_shot_defs.setdefault(a.targets[0].id, []).append(a)
+        if not one_shot_defs:
+            continue
+        cfg = cfg_of(f)
+        rd = reaching_defs(cfg)
+        for name, defs in one_shot_defs.items():
+            n += 1
+            def_nodes = {nd for nd in cfg.nodes if nd.ast in defs}
+            all_defs = {nd for nd in cfg.nodes if nd.ast is not None and nd.kind in ("stmt", "for", "with") and name in _stored_names(nd)}
+            consumers = []
+            for nd in cfg.nodes:
+                if nd.ast is None:
+                    continue
+                if not (set(rd[nd].get(name, ())) & def_nodes):
+                    continue
+                if nd.kind == "for" and isinstance(nd.owner.iter, ast.Name) and nd.owner.iter.id == name:
+                    consumers.append(nd)
+                    continue
+                if nd.kind not in ("for", "entry", "exit"):
+                    root = nd.ast
+                    for x in ast.walk(root):
+                        if isinstance(x, ast.Call) and call_name(x) in CONSUMERS and any(isinstance(a, ast.Name) and a.id == name for a in x.args):
+                            consumers.append(nd)
+                            break
+                        if isinstance(x, (ast.GeneratorExp, ast.ListComp, ast.SetComp, ast.DictComp)) and any(isinstance(g.iter, ast.Name) and g.iter.id == name for g in x.generators):
+                            consumers.append(nd)
+                            break
+            w = None
+            for c1 in consumers:
+                for c2 in consumers:
+                    if c1 is c2 and c1.kind != "for":
+                        continue
+                    if c1 is c2:
+                        continue
+                    p = cfg.path_avoiding(c1, c2, all_defs - {c1, c2})
+                    if p is not None:
+                        w = w or (c1, c2, p)
+            rep.check(w is None, rule, f"{f.short}: the one-shot iterator `{name}` is consumed at most once on every path", f.loc(defs[0]), construct=f"{name} = {norm(defs[0].value)[:50]}" + ("" if w is None else f"; consumed by `{norm(w[0].ast)[:40]}` and again by `{norm(w[1].ast)[:40]}`"), detail="" if w is None else f"`{name}` is a map / generator object: after the first consumer it is exhausted and the second one iterates over nothing", function=f.qualname, path=path_text(w[2]) if w else None)
+    return n
+
+
+def _stored_names(nd) -> Set[str]:
+    out: Set[str] = set()
+    a = nd.ast
+    tg = []
+    if isinstance(a, ast.Assign):
+        tg = a.targets
+    elif isinstance(a, (ast.AugAssign, ast.AnnAssign)):
+        tg = [a.target]
+    elif nd.kind == "for" and hasattr(nd, "owner") and isinstance(nd.owner, ast.For):
+        tg = [nd.owner.target]
+    for t in tg:
+        for x in ast.walk(t):
+            if isinstance(x, ast.Name):
+                out.add(x.id)
+    return out
+
+
+def one_shot_stored_for_reuse(rep: Report, rule: str, funcs: Iterable[FuncInfo]) -> int:
+    """T19c: a one-shot iterator (reversed / map / filter / zip / a generator expression) bound into a
+    functools.partial, or stored in a field, is consumed by the first call; every later call sees it empty."""
+    n = 0
+    for f in funcs:
+        for c in walk_no_nested(f.node):
+            if isinstance(c, ast.Call) and call_name(c) == "partial":
+                n += 1
+                bad = [a for a in list(c.args[1:]) + [k.value for k in c.keywords] if isinstance(a, ast.GeneratorExp) or (isinstance(a, ast.Call) and call_name(a) in ONE_SHOT_CALLS)]
+                rep.check(not bad, rule, f"{f.short}: no one-shot iterator is bound into a partial", f.loc(c), construct=norm(c)[:90] if bad else f"partial({norm(c.args[0]) if c.args else ''}, …)", detail="" if not bad else f"`{norm(bad[0])[:50]}` is exhausted by the first call of the partial: the second call (the second action instance of a plan) iterates over nothing", function=f.qualname)
+            if isinstance(c, ast.Assign) and any(isinstance(t, ast.Attribute) and norm(t.value) == "self" for t in c.targets):
+                v = c.value
+                if isinstance(v, ast.GeneratorExp) or (isinstance(v, ast.Call) and call_name(v) in ONE_SHOT_CALLS and call_name(v) not in ("product",)):
+                    n += 1
+                    rep.bad(rule, f"{f.short}: no one-shot iterator is stored in a field", f.loc(c), construct=norm(c)[:90], detail="the field can be iterated once; later readers see it empty", function=f.qualname)
+    return n
